@@ -47,12 +47,9 @@ class MsgPackDeserializer {
 
     foundSomething_ = true;
 
-    bool allowValue = filter.allowValue();
-
-    if (allowValue) {
-      // callers pass a null pointer only when value must be ignored
-      ARDUINOJSON_ASSERT(variant != 0);
-    }
+    // callers pass a null pointer when the value must be ignored,
+    // whatever the filter says
+    bool allowValue = variant != 0 && filter.allowValue();
 
     if (code >= 0xcc && code <= 0xd3) {
       auto width = uint8_t(1U << ((code - 0xcc) % 4));
@@ -347,11 +344,10 @@ class MsgPackDeserializer {
     if (nestingLimit.reached())
       return DeserializationError::TooDeep;
 
-    bool allowArray = filter.allowArray();
+    bool allowArray = variant != 0 && filter.allowArray();
 
     ArrayData* array;
     if (allowArray) {
-      ARDUINOJSON_ASSERT(variant != 0);
       array = &variant->toArray();
     } else {
       array = 0;
@@ -362,8 +358,7 @@ class MsgPackDeserializer {
     for (; n; --n) {
       VariantData* value;
 
-      if (elementFilter.allow()) {
-        ARDUINOJSON_ASSERT(array != 0);
+      if (array != 0 && elementFilter.allow()) {
         value = array->addElement(resources_);
         if (!value)
           return DeserializationError::NoMemory;
@@ -389,8 +384,7 @@ class MsgPackDeserializer {
       return DeserializationError::TooDeep;
 
     ObjectData* object;
-    if (filter.allowObject()) {
-      ARDUINOJSON_ASSERT(variant != 0);
+    if (variant != 0 && filter.allowObject()) {
       object = &variant->toObject();
     } else {
       object = 0;
@@ -405,8 +399,7 @@ class MsgPackDeserializer {
       TFilter memberFilter = filter[key.c_str()];
       VariantData* member;
 
-      if (memberFilter.allow()) {
-        ARDUINOJSON_ASSERT(object != 0);
+      if (object != 0 && memberFilter.allow()) {
 
         // Save key in memory pool.
         auto savedKey = stringBuffer_.save();
